@@ -6,6 +6,22 @@ import (
 	"strings"
 )
 
+const bytesAxioms = `
+(assert (= (blen eps) 0))
+(assert (forall ((a Bytes)) (! (>= (blen a) 0) :pattern ((blen a)))))
+(assert (forall ((a Bytes)) (! (=> (= (blen a) 0) (= a eps)) :pattern ((blen a)))))
+(assert (forall ((a Bytes) (b Bytes)) (! (= (blen (cat a b)) (+ (blen a) (blen b))) :pattern ((cat a b)))))
+(assert (forall ((a Bytes)) (! (= (cat a eps) a) :pattern ((cat a eps)))))
+(assert (forall ((a Bytes)) (! (= (cat eps a) a) :pattern ((cat eps a)))))
+(assert (forall ((a Bytes) (b Bytes) (c Bytes)) (! (= (cat (cat a b) c) (cat a (cat b c))) :pattern ((cat (cat a b) c)))))
+(assert (forall ((a Bytes) (b Bytes) (c Bytes)) (! (= (cat (cat a b) c) (cat a (cat b c))) :pattern ((cat a (cat b c))))))
+(assert (forall ((a Bytes) (b Bytes)) (! (= (take (cat a b) (blen a)) a) :pattern ((take (cat a b) (blen a))))))
+(assert (forall ((a Bytes) (b Bytes)) (! (= (drop (cat a b) (blen a)) b) :pattern ((drop (cat a b) (blen a))))))
+(assert (forall ((a Bytes) (n Int)) (! (=> (and (<= 0 n) (<= n (blen a))) (and (= (blen (take a n)) n) (= (blen (drop a n)) (- (blen a) n)) (= (cat (take a n) (drop a n)) a))) :pattern ((take a n)) :pattern ((drop a n)))))
+(assert (forall ((a Bytes)) (! (= (drop a 0) a) :pattern ((drop a 0)))))
+(assert (forall ((a Bytes)) (! (= (take a (blen a)) a) :pattern ((take a (blen a))))))
+`
+
 const basePrelude = `
 (declare-sort Bytes 0)
 (declare-sort Opaque 0)
@@ -23,19 +39,6 @@ const basePrelude = `
 (declare-fun cat (Bytes Bytes) Bytes)
 (declare-fun take (Bytes Int) Bytes)
 (declare-fun drop (Bytes Int) Bytes)
-(assert (= (blen eps) 0))
-(assert (forall ((a Bytes)) (! (>= (blen a) 0) :pattern ((blen a)))))
-(assert (forall ((a Bytes)) (! (=> (= (blen a) 0) (= a eps)) :pattern ((blen a)))))
-(assert (forall ((a Bytes) (b Bytes)) (! (= (blen (cat a b)) (+ (blen a) (blen b))) :pattern ((cat a b)))))
-(assert (forall ((a Bytes)) (! (= (cat a eps) a) :pattern ((cat a eps)))))
-(assert (forall ((a Bytes)) (! (= (cat eps a) a) :pattern ((cat eps a)))))
-(assert (forall ((a Bytes) (b Bytes) (c Bytes)) (! (= (cat (cat a b) c) (cat a (cat b c))) :pattern ((cat (cat a b) c)))))
-(assert (forall ((a Bytes) (b Bytes) (c Bytes)) (! (= (cat (cat a b) c) (cat a (cat b c))) :pattern ((cat a (cat b c))))))
-(assert (forall ((a Bytes) (b Bytes)) (! (= (take (cat a b) (blen a)) a) :pattern ((take (cat a b) (blen a))))))
-(assert (forall ((a Bytes) (b Bytes)) (! (= (drop (cat a b) (blen a)) b) :pattern ((drop (cat a b) (blen a))))))
-(assert (forall ((a Bytes) (n Int)) (! (=> (and (<= 0 n) (<= n (blen a))) (and (= (blen (take a n)) n) (= (blen (drop a n)) (- (blen a) n)) (= (cat (take a n) (drop a n)) a))) :pattern ((take a n)) :pattern ((drop a n)))))
-(assert (forall ((a Bytes)) (! (= (drop a 0) a) :pattern ((drop a 0)))))
-(assert (forall ((a Bytes)) (! (= (take a (blen a)) a) :pattern ((take a (blen a))))))
 (declare-fun bcmp (Bytes Bytes) Int)
 ; ---- pointers into objects and arrays ----
 (declare-fun inner (Int Int) Int)
@@ -123,8 +126,26 @@ func (e *Eng) buildPrelude() string {
 	b.WriteString(e.extraDecls())
 	// contract-file prelude
 	for _, p := range e.cs.Prelude {
-		b.WriteString(p)
+		if p.Theory != "" {
+			continue
+		}
+		b.WriteString(p.Text)
 		b.WriteString("\n")
+	}
+	return b.String()
+}
+
+// theoryText returns the scoped axioms of the named theories (in file order), without lemmas.
+func (e *Eng) theoryText(uses []string) string {
+	var b strings.Builder
+	if hasTag(uses, "bytes") {
+		b.WriteString(bytesAxioms)
+	}
+	for _, p := range e.cs.Prelude {
+		if p.Theory != "" && hasTag(uses, p.Theory) {
+			b.WriteString(p.Text)
+			b.WriteString("\n")
+		}
 	}
 	return b.String()
 }
